@@ -732,8 +732,8 @@ def guard(repo, out):
                 if d is g.entry:
                     continue
                 dv = d.ast.value if d.kind == 'stmt' and isinstance(d.ast, ast.Assign) else None
-                if isinstance(dv, ast.Call) and isinstance(dv.func, ast.Subscript) and \
-                        astx.const_str(dv.func.slice) == 'set_function' and \
+                df = _deref(rd, d, dv.func)[0] if isinstance(dv, ast.Call) else None
+                if isinstance(df, ast.Subscript) and astx.const_str(df.slice) == 'set_function' and \
                         any(role(x, d) == 'value' for x in dv.args):
                     continue
                 okst = False
@@ -1136,6 +1136,21 @@ class _Temp:
             raise AnalysisError(f'{fn.ident}: no yield')
         self.pre = g.reach([g.entry], avoid=self.yields)
         self.post = g.reach([m for y in self.yields for m, _ in g.succ[y]]) - set(self.yields)
+        # hoisted attribute lookups: `cache = self._context_cache` (single assignment, attribute never rebound)
+        assigned = {}
+        for st in astx.walk_stmts(fn.node.body):
+            for t in astx.assigned_targets(st):
+                p_ = astx.path(t)
+                if p_:
+                    assigned.setdefault(p_, []).append(st)
+        self.alias = {}
+        for nm, sts in assigned.items():
+            st = sts[0]
+            if len(sts) == 1 and '.' not in nm and '[' not in nm and isinstance(st, ast.Assign) and \
+                    len(st.targets) == 1 and isinstance(st.value, ast.Attribute):
+                vp = astx.path(st.value)
+                if vp and vp.startswith('self.') and '(' not in vp and '[' not in vp and vp not in assigned:
+                    self.alias[nm] = vp
         self.kw_dirty = any(isinstance(t, ast.Name) and t.id == self.kw
                             for st in astx.walk_stmts(fn.node.body) for t in astx.assigned_targets(st)) or \
             any(astx.path(astx.receiver(c)) == self.kw and astx.callee_attr(c) in
@@ -1151,10 +1166,9 @@ class _Temp:
 
     def key_of_iter(self, loop):
         """(key var, value var or None) if the loop runs over the options given in **kwargs."""
-        it, tg = loop.iter, loop.target
-        while isinstance(it, ast.Call) and astx.call_name(it) in ('reversed', 'list', 'tuple', 'sorted') and \
-                len(it.args) == 1:
-            it = it.args[0]
+        it, tg = _strip_iter(loop.iter), loop.target
+        if isinstance(it, ast.Call) and astx.call_name(it) == 'sorted' and len(it.args) == 1 and not it.keywords:
+            it = _strip_iter(it.args[0])
         if isinstance(it, ast.Name) and it.id == self.kw and isinstance(tg, ast.Name):
             return tg.id, None
         if isinstance(it, ast.Call) and astx.path(astx.receiver(it)) == self.kw and not it.args:
@@ -1171,30 +1185,49 @@ class _Temp:
         return isinstance(e, ast.Subscript) and isinstance(e.value, ast.Name) and e.value.id == 'self' and \
             isinstance(e.slice, ast.Name) and e.slice.id == key
 
-    @staticmethod
-    def cache_item(e, key):
+    def path(self, e):
+        """Access path with a leading hoisted alias replaced by the attribute it stands for."""
+        p_ = astx.path(e)
+        if p_ is None:
+            return None
+        head = p_.split('.', 1)[0].split('[', 1)[0]
+        if head in self.alias:
+            return self.alias[head] + p_[len(head):]
+        return p_
+
+    def cache_item(self, e, key):
         """path of C if e is `C[key]` (or `C.setdefault(key, [])`), else None."""
         if isinstance(e, ast.Subscript) and isinstance(e.slice, ast.Name) and e.slice.id == key:
-            return astx.path(e.value)
+            return self.path(e.value)
         if isinstance(e, ast.Call) and astx.callee_attr(e) == 'setdefault' and len(e.args) == 2 and \
                 isinstance(e.args[0], ast.Name) and e.args[0].id == key and \
                 isinstance(e.args[1], ast.List) and not e.args[1].elts:
-            return astx.path(astx.receiver(e))
+            return self.path(astx.receiver(e))
         return None
+
+    def temp_value(self, e, key, val):
+        """True if e denotes the requested temporary value of option `key`: the items() value var or kwargs[key]."""
+        if isinstance(e, ast.Name):
+            return val is not None and e.id == val
+        return isinstance(e, ast.Subscript) and isinstance(e.value, ast.Name) and e.value.id == self.kw and \
+            isinstance(e.slice, ast.Name) and e.slice.id == key
 
     def body_nodes(self, loop):
         return [n for n in self.g.body_nodes(loop)]
 
 
-def _empty_guard(test, cache, key):
+def _empty_guard(T, at, test, cache, key):
     """Truth of `test` as a function of the stack length (0,1,2) or None if not evaluable."""
+    def stack(e):
+        e = _deref(T.rd, at, e)[0]
+        return isinstance(e, ast.Subscript) and T.cache_item(e, key) == cache
+
     def ev(e, n):
         if isinstance(e, ast.UnaryOp) and isinstance(e.op, ast.Not):
             return not ev(e.operand, n)
-        if isinstance(e, ast.Call) and astx.call_name(e) == 'len' and len(e.args) == 1 and \
-                _Temp.cache_item(e.args[0], key) == cache and isinstance(e.args[0], ast.Subscript):
+        if isinstance(e, ast.Call) and astx.call_name(e) == 'len' and len(e.args) == 1 and stack(e.args[0]):
             return n
-        if isinstance(e, ast.Subscript) and _Temp.cache_item(e, key) == cache:
+        if isinstance(e, (ast.Subscript, ast.Name)) and stack(e):
             return n   # truthiness of the list
         if isinstance(e, ast.Constant) and isinstance(e.value, int):
             return e.value
@@ -1227,10 +1260,17 @@ def _branch_of(stmt, loop):
 
 
 def _strip_iter(it):
-    while isinstance(it, ast.Call) and len(it.args) == 1 and not it.keywords and \
-            astx.call_name(it) in ('reversed', 'list', 'tuple'):
-        it = it.args[0]
-    return it
+    """Drop order-only wrappers: reversed(x), list(x), tuple(x), x[::-1], x[:]."""
+    while True:
+        if isinstance(it, ast.Call) and len(it.args) == 1 and not it.keywords and \
+                astx.call_name(it) in ('reversed', 'list', 'tuple'):
+            it = it.args[0]
+        elif isinstance(it, ast.Subscript) and isinstance(it.slice, ast.Slice) and it.slice.lower is None and \
+                it.slice.upper is None and (it.slice.step is None or astx.dump(it.slice.step) in
+                                            (astx.dump(ast.Constant(value=-1)), astx.dump(ast.Constant(value=1)))):
+            it = it.value
+        else:
+            return it
 
 
 def _analyse_temporary(repo):
@@ -1238,7 +1278,8 @@ def _analyse_temporary(repo):
     T = _Temp(repo)
     g, fn = T.g, T.fn
     res = dict(T=T)
-    setup = [l for l in T.loops(T.pre) if T.key_of_iter(l) and T.key_of_iter(l)[1]]
+    can_yield = {id(n.ast) for n in g.nodes if n.kind == 'iter' and set(T.yields) & g.reach([n], labels=cfgm.noexc)}
+    setup = [l for l in T.loops(T.pre) if T.key_of_iter(l) and id(l) in can_yield]
     restore = [l for l in T.loops(T.post) if l not in setup]
     if len(setup) != 1:
         raise AnalysisError(f'{fn.ident}: setup loop `for k, v in {T.kw}.items()` not found before the yield')
@@ -1315,10 +1356,11 @@ def temporary(repo, out):
 
     # ---- (1) setup discipline
     ok1 = True
-    good_sets = [n for n in sets if isinstance(n.ast.value, ast.Name) and n.ast.value.id == v1]
+    good_sets = [n for n in sets if T.temp_value(n.ast.value, k1, v1)]
+    v1s = v1 or f'{T.kw}[{k1}]'
     if not sets or len(good_sets) != len(sets):
         x = ([n for n in sets if n not in good_sets] or [None])[0]
-        out.bad(fn, x.ast if x else L1, f'setup does not assign self[{k1}] = {v1} for the requested options',
+        out.bad(fn, x.ast if x else L1, f'setup does not assign self[{k1}] = {v1s} for the requested options',
                 key='setup-set')
         ok1 = False
     if not saves:
@@ -1336,8 +1378,8 @@ def temporary(repo, out):
             e, at = _deref(rd, n, c.args[0])
             if T.self_item(e, k1):
                 read_nodes.append(at)
-            elif isinstance(e, ast.Name) and e.id == v1:
-                out.bad(fn, n.ast, f'the temporary value `{v1}` is pushed instead of the current value '
+            elif T.temp_value(e, k1, v1):
+                out.bad(fn, n.ast, f'the temporary value `{v1s}` is pushed instead of the current value '
                         f'self[{k1}]', key='save-before-set')
                 ok1 = False
             else:
@@ -1365,7 +1407,7 @@ def temporary(repo, out):
                 out.bad(fn, s_.ast, 'the current value is pushed twice in one iteration', key='save-every-option')
                 ok1 = False
     if ok1:
-        out.ok(fn, L1, f'each option: read self[{k1}] -> push on {cache}[{k1}] -> self[{k1}] = {v1}, once per iteration')
+        out.ok(fn, L1, f'each option: read self[{k1}] -> push on {cache}[{k1}] -> self[{k1}] = {v1s}, once per iteration')
     if cache is None:
         return
 
@@ -1425,7 +1467,7 @@ def temporary(repo, out):
                 it = it.args[0]
             if isinstance(it, ast.Call) and not it.args and astx.callee_attr(it) in ('keys', 'items', 'copy'):
                 it = astx.receiver(it)
-            if astx.path(it) == cache:
+            if T.path(it) == cache:
                 out.bad(fn, L2, f'the restore loop runs over {cache} (all saved options, including those of '
                         f'enclosing contexts) instead of the options given to this call', key='restore-keys')
             else:
@@ -1560,8 +1602,9 @@ def _check_restore_loop(T, out, L2, k2, cache, k1, v1):
     for n in restores:
         e, at = _deref(rd, n, n.ast.value)
         if isinstance(e, ast.Call) and astx.callee_attr(e) == 'pop':
-            cp = T.cache_item(astx.receiver(e), k2)
-            if cp != cache or not isinstance(astx.receiver(e), ast.Subscript):
+            recv = _deref(rd, at, astx.receiver(e))[0]
+            cp = T.cache_item(recv, k2)
+            if cp != cache or not isinstance(recv, ast.Subscript):
                 out.bad(fn, n.ast, f'restores from {astx.src(astx.receiver(e))} but the value was pushed on '
                         f'{cache}[{k1}]', key='restore-source')
                 ok4 = False
@@ -1580,7 +1623,7 @@ def _check_restore_loop(T, out, L2, k2, cache, k1, v1):
                 out.bad(fn, n.ast, 'the saved value is read but not removed from the stack: an enclosing context '
                         'on the same option later restores this inner value', key='restore-lifo')
             ok4 = False
-        elif isinstance(e, ast.Name) and e.id in (v1,) or isinstance(e, ast.Subscript) and astx.path(e.value) == T.kw:
+        elif T.temp_value(e, k2, v1) or isinstance(e, ast.Subscript) and astx.path(e.value) == T.kw:
             out.bad(fn, n.ast, 'assigns the temporary value again instead of the saved one', key='restore-source')
             ok4 = False
         else:
@@ -1604,7 +1647,7 @@ def _check_restore_loop(T, out, L2, k2, cache, k1, v1):
         if isinstance(n.ast, ast.Delete) and any(T.cache_item(t, k2) == cache for t in n.ast.targets):
             drops.append(n)
         for c in n.calls():
-            if astx.callee_attr(c) == 'pop' and astx.path(astx.receiver(c)) == cache and c.args and \
+            if astx.callee_attr(c) == 'pop' and T.path(astx.receiver(c)) == cache and c.args and \
                     isinstance(c.args[0], ast.Name) and c.args[0].id == k2:
                 drops.append(n)
     seen = set()
@@ -1618,7 +1661,8 @@ def _check_restore_loop(T, out, L2, k2, cache, k1, v1):
                     'still have a value on it', key='cleanup-guard')
             ok5 = False
             continue
-        tv = _empty_guard(par.test, cache, k2) if isinstance(par, ast.If) and br else None
+        tnodes = [x for x in g.nodes_of(par) if x.kind == 'test'] if isinstance(par, ast.If) else []
+        tv = _empty_guard(T, tnodes[0], par.test, cache, k2) if tnodes and br else None
         if tv is None:
             out.unsure(fn, n.ast, 'guard of the cache clean-up not recognised')
             ok5 = False
@@ -2053,4 +2097,47 @@ selftest(
          "        slot = self._dict[name]\n        slot['val'] = value\n        slot['has_been_set'] = True\n"),
     Twin('twin-entry-copied-after-alias', OD, _STORE,
          "        target = meta\n        target['val'] = value\n        target['has_been_set'] = True\n"),
+)
+
+
+# ---- robustness round: shapes accepted after behaviour-preserving refactors (benign/C27_1, C27_3)
+_TMP_HOISTED = ("        cache = self._context_cache\n"
+                "        switched = []\n"
+                "        try:\n"
+                "            for option in kwargs:\n"
+                "                old = self[option]\n"
+                "                cache.setdefault(option, []).append(old)\n"
+                "                switched.append(option)\n"
+                "                self[option] = kwargs[option]\n"
+                "            yield\n"
+                "        finally:\n"
+                "            for option in switched[::-1]:\n"
+                "                saved = cache[option]\n"
+                "                self[option] = saved.pop()\n"
+                "                if not saved:\n"
+                "                    del cache[option]\n")
+
+selftest(
+    'C27',
+    Twin('twin-set-function-local', OD, "        if meta['set_function'] is not None:\n            value = meta['set_function'](meta, value)",
+         "        set_function = meta['set_function']\n        if set_function is not None:\n            value = set_function(meta, value)"),
+    Twin('twin-temporary-hoisted-cache-keys-slice', OD, _TMP, _TMP_HOISTED),
+    Twin('twin-restore-slice-reversed', OD, 'for option in reversed(switched):', 'for option in switched[::-1]:'),
+    # the same refactored shape must still be checked
+    Mutant('hoisted-fifo', OD, _TMP, _TMP_HOISTED.replace('saved.pop()', 'saved.pop(0)'), 'C27.temporary'),
+    Mutant('hoisted-cleanup-inverted', OD, _TMP, _TMP_HOISTED.replace('if not saved:', 'if saved:'), 'C27.temporary'),
+    Mutant('hoisted-set-before-read', OD, _TMP,
+           _TMP_HOISTED.replace("                old = self[option]\n", "")
+           .replace("                self[option] = kwargs[option]\n", "")
+           .replace("                cache.setdefault", "                self[option] = kwargs[option]\n                old = self[option]\n                cache.setdefault"),
+           'C27.temporary'),
+    Mutant('hoisted-pushes-new-value', OD, _TMP, _TMP_HOISTED.replace('.append(old)', '.append(kwargs[option])'), 'C27.temporary'),
+    Mutant('hoisted-restore-all-cached', OD, _TMP, _TMP_HOISTED.replace('switched[::-1]', 'list(cache)'), 'C27.temporary'),
+    Mutant('hoisted-record-after-store', OD, _TMP,
+           _TMP_HOISTED.replace("                switched.append(option)\n                self[option] = kwargs[option]\n",
+                                "                self[option] = kwargs[option]\n                switched.append(option)\n"),
+           'C27.temporary'),
+    Mutant('setfunction-local-skips-validation', OD, "        self._assert_valid(name, value)\n\n        # General function test\n        if meta['set_function'] is not None:\n            value = meta['set_function'](meta, value)",
+           "        set_function = meta['set_function']\n        if set_function is not None:\n            value = set_function(meta, value)\n        else:\n            self._assert_valid(name, value)",
+           'C27.guard'),
 )
